@@ -117,6 +117,11 @@ func Text[T ~string | ~[]byte](x T) string {
 
 func Use() int { return len(Bytes("ab")) + len(Text([]byte("c"))) }
 `, "conv/other.go": fn("conv", "Other")}},
+		// "->target" content = symbolic link. An editor lock file (dangling link named *.go) and an
+		// underscore-prefixed file sort before the ordinary file of the same directory.
+		{"editor-droppings", map[string]string{"ed/.#main.go": "->user@host.1234:1700000000", "ed/_scratch.go": fn("ed", "Scratch"), "ed/main.go": fn("ed", "EdMain"), "ed/zlast.go": fn("ed", "ZLast")}},
+		{"symlinked-sources", map[string]string{".store/impl_real.go": fn("plug", "Impl"), ".store/more_real.go": fn("plug", "More"),
+			"plug/impl.go": "->../.store/impl_real.go", "plug/more.go": "->../.store/more_real.go"}},
 		{"dotted-dir-names", map[string]string{"v1.2/api.go": fn("api", "Api"), "a.b/c..d/e.go": fn("e", "E"), "..weird/w.go": fn("w", "W")}},
 	}
 }
@@ -149,7 +154,11 @@ func c16Inventory(root string) (files []string, funcs []c16Func, unanalysable ma
 			return nil
 		}
 		files = append(files, p)
-		st, _ := d.Info()
+		st, serr := os.Stat(p) // follows links: the size that counts is the target's
+		if serr != nil {
+			unanalysable[p] = "unreadable"
+			return nil
+		}
 		if st.Size() > 10*1024*1024 {
 			unanalysable[p] = "oversize"
 			return nil
@@ -235,6 +244,8 @@ func TestVerifC16(t *testing.T) {
 			os.MkdirAll(filepath.Dir(p), 0o755)
 			if content == "@BIG" {
 				os.WriteFile(p, big, 0o644)
+			} else if strings.HasPrefix(content, "->") {
+				os.Symlink(content[2:], p)
 			} else {
 				os.WriteFile(p, []byte(content), 0o644)
 			}
